@@ -18,7 +18,8 @@ REPO = os.environ.get("SEED_REPO", "/repo")
 SCRATCH = os.environ.get("SEED_VERIF_SCRATCH", "/var/tmp/seed-verif")
 WORK = os.path.join(SCRATCH, "work")          # copy of /repo used by cargo kani / cargo build
 STAGE = os.path.join(SCRATCH, "stage")
-EVIDENCE_DIR = os.path.join(VERIF, "evidence")
+# development runs against a copy (SEED_REPO=<copy>, used for seeded changes) must not overwrite the evidence of /repo itself
+EVIDENCE_DIR = os.path.join(VERIF, "evidence") if REPO == "/repo" else os.path.join(SCRATCH, "evidence")
 REPLAY_DIR = os.path.join(VERIF, "replays")
 KNOWN_FINDINGS = os.path.join(VERIF, "known-findings.txt")
 
